@@ -884,6 +884,20 @@ func registerIntercepts(g *Engine) {
 		}
 		return e.passthrough(fn, a)
 	}
+	// time.Until(t) = t - now on monotonic readings (the real fast path subtracts
+	// runtimeNano()-startNano, which does not match the readings stored by the
+	// time.Now model: without this intercept Until was off by the clock origin)
+	ic["time.Until"] = func(e *Exec, fn *ssa.Function, a []Value) Value {
+		tv := a[0].(StructVal)
+		if isZeroTime(e, tv) {
+			return e.tb.Const(64, uint64(1)<<63) // minDuration
+		}
+		if isMono(e, tv) {
+			now := ic["time.Now"](e, fn, nil).(StructVal)
+			return e.tb.Bin(OSub, e.scalar(tv[1]), e.scalar(now[1]))
+		}
+		return e.passthrough(fn, a)
+	}
 	ic["(time.Time).Sub"] = func(e *Exec, fn *ssa.Function, a []Value) Value {
 		t1, t2 := a[0].(StructVal), a[1].(StructVal)
 		if isMono(e, t1) && isMono(e, t2) {
